@@ -1,3 +1,4 @@
+mod c03;
 mod c15;
 mod gal;
 mod rng;
@@ -25,6 +26,7 @@ impl Ctx {
             let path = self.out.join(format!("{}.v", name));
             let mut f = std::io::BufWriter::new(std::fs::File::create(&path).unwrap());
             writeln!(f, "{}", header).unwrap();
+            write!(f, "{}", gal::interned_defs()).unwrap();
             writeln!(f, "Definition cases : list {} := [", ty).unwrap();
             for (i, t) in chunk.iter().enumerate() {
                 writeln!(f, "  {}{}", t, if i + 1 < chunk.len() { ";" } else { "" }).unwrap();
@@ -82,6 +84,8 @@ fn main() {
     std::fs::create_dir_all(&ctx.out).unwrap();
     match (cmd, id.as_str()) {
         ("run", "C15") => c15::run(&mut ctx),
+        ("run", "C03") => c03::run(&mut ctx, false),
+        ("run", "C04") => c03::run(&mut ctx, true),
         ("extract", _) => {
             // translators: none registered yet
             return;
